@@ -28,6 +28,7 @@ E = 'pybufrkit/encoder.py'
 M = 'pybufrkit/mdquery.py'
 B = 'pybufrkit/bufr.py'
 Q = 'pybufrkit/dataquery.py'
+G = 'pybufrkit/decoder.py'
 K = 'pybufrkit/coder.py'
 
 MUTS = [
@@ -187,6 +188,28 @@ MUTS = [
      "        self.bitmapped_descriptors = None\n        self.bitmap = None\n        self.back_referenced_descriptors = None\n"),
     ('E23', 'preserve', 'C01', K, "            if operand_value == 0:\n                state.bsr_modifier = BSRModifier(\n                    nbits_increment=0, scale_increment=0, refval_factor=1\n                )",
      "            if operand_value == 0:\n                state.bsr_modifier = BSRModifier(0, 0, 1)"),
+    # ---- stage F: the stream scanner decoder.generate_bufr_message (flow function, C11_src_generate_eq) ----------
+    ('F1', 'change', 'C11', G, "            idx_start += len(bufr_message.serialized_bytes)\n", "            idx_start += len(bufr_message.serialized_bytes) - 1\n"),
+    ('F2', 'change', 'C12', G, "                    idx_start += bufr_message.length.value\n", "                    idx_start += 1\n"),
+    ('F3', 'change', 'C11', G, "                matched = sr.run(bufr_message)\n", "                matched = not sr.run(bufr_message)\n"),
+    ('F4', 'change', 'C11', G, "bufr_message.serialized_bytes = s[idx_start: idx_start + bufr_message.length.value]",
+     "bufr_message.serialized_bytes = s[:idx_start + bufr_message.length.value]"),
+    ('F5', 'change', 'C11', G, "        idx_start = s.find(MESSAGE_START_SIGNATURE, idx_start)\n", "        idx_start = s.find(MESSAGE_START_SIGNATURE, idx_start + 1)\n"),
+    ('F6', 'change', 'C11', G, "                    TableGroupCacheManager.invalidate()\n", ""),
+    ('F7', 'change', 'C12', G, "            if not continue_on_error:\n                raise e\n", "            if continue_on_error:\n                raise e\n"),
+    ('F8', 'change', 'C11', G, "        if idx_start < 0:\n            return\n", "        if idx_start <= 0:\n            return\n"),
+    ('F9', 'change', 'C12', G, "            if info_only:\n                idx_start += 1\n", "            if info_only:\n                idx_start += 4\n"),
+    ('F10', 'change', 'C12', G, "        except PyBufrKitError as e:\n", "        except Exception as e:\n"),
+    ('F11', 'change', 'C11', G, "                if matched and not info_only:\n", "                if matched:\n"),
+    ('F12', 'change', 'C12', G, "                except PyBufrKitError:\n                    idx_start += 1\n", "                except PyBufrKitError:\n                    idx_start += bufr_message.length.value\n"),
+    ('F13', 'change', 'C11', G, "                    s[idx_start:], start_signature=None, info_only=info_only, *args, **kwargs\n", "                    s[idx_start:], start_signature=None, info_only=False, *args, **kwargs\n"),
+    ('F14', 'unsupported', 'C11', G, "            matched = True\n            if filter_expr:", "            if filter_expr:"),
+    ('F15', 'unsupported', 'C11', G, "            if matched:\n                yield bufr_message\n", "            if matched:\n                yield bufr_message\n                break\n"),
+    ('F16', 'preserve', 'C11', G, "            idx_start += len(bufr_message.serialized_bytes)\n\n            if matched:\n                yield bufr_message\n",
+     "            if matched:\n                yield bufr_message\n\n            idx_start += len(bufr_message.serialized_bytes)\n"),
+    ('F17', 'preserve', 'C11', G, '@renamegen matched is_matched', ''),
+    ('F18', 'preserve', 'C11', G, "        if idx_start < 0:\n            return\n", "        if idx_start == -1:\n            return\n"),
+    ('F19', 'preserve', 'C12', G, "            print('Continuing on next message and ignoring error: {}'.format(e), file=sys.stderr)\n", "            print('Continuing with the next message, ignoring: {}'.format(e), file=sys.stderr)\n"),
     # ---- stage F/G (w5-codersrc, round 2): process_element_descriptor, process_bitmap_definition ----------------
     ('F1', 'change', 'C01', K, "        if state.nbits_of_associated and X != 31:", "        if state.nbits_of_associated and X != 33:"),
     ('F2', 'change', 'C01', K, "nbytes = state.new_nbytes if state.new_nbytes else descriptor.nbits // 8",
@@ -213,6 +236,11 @@ MUTS = [
 
 
 def apply(text, a, b):
+    if a.startswith('@renamegen '):
+        _, old, new = a.split()
+        i = text.index('def generate_bufr_message(')
+        body = re.sub(r'\b%s\b' % old, new, text[i:])
+        return text[:i] + body
     if a.startswith('@renameparse '):
         _, old, new = a.split()
         i = text.index('    def parse(self, path_expr):')
